@@ -10,7 +10,7 @@ let ty_query (name : string) (t : ty) (arg : Sexp.t option) : string =
   | "index_result", _ -> o (index_result t)
   | "element_type", _ -> o (element_type t)
   | "return_type", _ -> o (fn_return_type t)
-  | "mut_element_type", _ -> o (mut_element_type t)
+  | "mut_element_type", _ -> o (mut_element_type_spec t)
   | "params", _ -> opt_to_string tys_to_string (params t)
   | "flatten_tuple", _ -> opt_to_string tys_to_string (flatten_tuple t)
   | "is_function", _ -> bool_to_string (is_function t)
